@@ -1,0 +1,55 @@
+//go:build verif
+
+// Contracts for command skylight, checked by /verif's govc (comment-only file).
+package main
+
+//@ pure func verifiersFrom(root Ref, name string) Ref
+//@ ghost var gRightEdgeLen int
+//@ ghost var gReadHashesOK bool
+//@ assume func torchwood.RightEdge params n
+//@   modifies gRightEdgeLen
+//@   ensures gRightEdgeLen == len(ret)
+//@ assume func tlog.HashReader.ReadHashes params indexes
+//@   modifies gReadHashesOK
+//@   ensures gReadHashesOK == (ret1 == nil)
+//@ pure func tileReaderFor(tree tlog.Tree, tr Ref) Ref
+//@ assume func torchwood.TileHashReaderWithContext params ctx tree tr
+//@   ensures ret == tileReaderFor(tree, tr)
+
+//@ func skylight.checkLog props C20
+//@   returns [C20] verified: (ret == nil || Is(ret, errLogSunset)) ==> openedBy(n, signedCheckpoint, vlist1(verifier)) && isRFCVerifier(verifier, log.Name, key) && checkpoint == ckptOf(n.Text)
+//@   returns [C20] origin: (ret == nil || Is(ret, errLogSunset)) ==> checkpoint.Origin == log.Name
+//@   returns [C20] timestamp-from-signature: (ret == nil || Is(ret, errLogSunset)) ==> t == sigTimestamp(n.Sigs[0])
+//@   returns [C20] fresh: ret == nil ==> gLastSinceArg == unixMilliTime(t) && gLastSince <= 5000000000
+//@   returns [C20] sunset-final-tree: Is(ret, errLogSunset) ==> log.FinalTree.RootHash == checkpoint.Hash && log.FinalTree.Size == checkpoint.N && log.FinalTree.Timestamp == t && !isnilb(log.FinalTree.RootHash)
+//@   returns [C20] sunset-only-past-date: Is(ret, errLogSunset) ==> gLastSinceArg == notAfterLimit && gLastSince > 604803000000000
+
+//@ func skylight.parseVerifiers props C20
+//@   invariant "range info.VerifierKeys" all-parsed: len(verifiers) == rangeindex + 1 && rangeindex < len(info.VerifierKeys)
+//@   returns [C20] nonempty-all-keys: ret1 == nil ==> len(info.VerifierKeys) > 0 && len(verifiers) == len(info.VerifierKeys)
+//@   defines ret1 == nil ==> ret0 == verifiersFrom(root, name)
+
+//@ func skylight.(*witnessHealth).loadVerifiers props C20
+//@   requires wh != nil
+//@   ensures [C20] reloaded: ret == nil ==> wh.verifier == verifiersFrom(wh.root, ite(wh.mirror, "mirror.v0.json", "witness.v0.json"))
+//@   ensures [C20] mirror-pending-keys: ret == nil && wh.mirror ==> wh.witnessVerifier == verifiersFrom(wh.pendingRoot, "witness.v0.json")
+
+//@ func skylight.witnessHealth.check props C20
+//@   returns [C20] witness-verified: ret1 == nil ==> openedBy(n, signedCheckpoint, wh.verifier) && checkpoint == ckptOf(n.Text) && ret0 == checkpoint.Origin
+//@   returns [C20] under-own-hash: ret1 == nil ==> originHashOf(checkpoint.Origin) == hash
+//@   returns [C20] mirror-edge-verified: (ret1 == nil && wh.mirror) ==> hr == tileReaderFor(checkpoint.Tree, iface(tr)) && (gRightEdgeLen == 0 || gReadHashesOK)
+//@   returns [C20] mirror-pending-verified: (ret1 == nil && wh.mirror) ==> openedBy(pn, signedPending, wh.witnessVerifier) && pending == ckptOf(pn.Text) && pending.Origin == checkpoint.Origin
+//@   returns [C20] mirror-not-ahead: (ret1 == nil && wh.mirror) ==> checkpoint.N <= pending.N
+
+//@ func skylight.main@"/health" props C20
+//@   invariant "range roots" status-values: status == 200 || status == 500
+//@   invariant "range roots" failure-absorbing: atEntry(status) == 500 ==> status == 500
+//@   invariant "range witnessChecks" status-values2: status == 200 || status == 500
+//@   invariant "range witnessChecks" failure-absorbing2: atEntry(status) == 500 ==> status == 500
+//@   invariant "range hashes" status-values3: status == 200 || status == 500
+//@   invariant "range hashes" failure-absorbing3: atEntry(status) == 500 ==> status == 500
+//@   call fmt.Fprintf "%s: %v\n" requires [C20] failure-line-sets-status: status == 500
+//@   call fmt.Fprintf "(ignored)" requires [C20] ignored-only-for-staging: log.Staging || wh.staging
+//@   call fmt.Fprintf "OK" requires [C20] ok-only-without-error: err == nil
+//@   call fmt.Fprintf "read-only" requires [C20] read-only-means-sunset: Is(err, errLogSunset) && err != nil
+//@   call http.ResponseWriter.WriteHeader requires [C20] reports-status: c_statusCode == status
